@@ -59,7 +59,10 @@ def numVerdict (dec sci : Char) (s : Str) (impl : Option (List String)) : String
         | none => if idbl == "exc:bpp" then "ok" else "FAIL:toDouble_raises"
         | some p =>
           -- whatever usable `dec` / `sci` the caller chose (toDouble translates them for the stream)
-          if nearestDouble idbl p.value then "ok" else "FAIL:toDouble_value"
+          -- a numeral beyond the range of double has no double as its value: `istringstream >> double`
+          -- stores ±DBL_MAX and sets failbit, which toDouble ignores (known finding)
+          if dblMax + pow2 970 ≤ ratAbs p.value && idbl != "exc:bpp" then "FAIL:toDouble_overflow_silent"
+          else if nearestDouble idbl p.value then "ok" else "FAIL:toDouble_value"
       if v1 != "ok" then v1
       else match pi with
         | none => if iintv == "exc:bpp" then "ok" else "FAIL:toInt_raises"
@@ -427,10 +430,14 @@ def ratOfHex (hex : String) : Option Rat :=
       let (mant, ex) : Nat × Int := if e == 0 then (m, -1074) else (m + 2 ^ 52, (e : Int) - 1075)
       some ((if neg then -1 else 1) * ((mant : Nat) : Rat) * pow2 ex)
 
-/-- `|a - b| ≤ (1 + |a|) / scale` on two bit patterns -/
+/-- relative agreement of two bit patterns: `|a - b| ≤ max(|a|,|b|) / scale`, or both within
+`1e-12` of each other in absolute terms (class values that are 0 up to the noise of the
+discretisation) -/
 def closeHex (scale : Nat) (a b : String) : Bool :=
   a == b || (match ratOfHex a, ratOfHex b with
-    | some x, some y => decide (ratAbs (x - y) * (scale : Rat) ≤ 1 + ratAbs x)
+    | some x, some y =>
+      let m := if ratAbs x < ratAbs y then ratAbs y else ratAbs x
+      decide (ratAbs (x - y) * (scale : Rat) ≤ m) || decide (ratAbs (x - y) * 1000000000000 ≤ 1)
     | _, _ => false)
 
 /-- `family n v1 … vn p1 … pn P k name1 val1 …` -/
@@ -473,7 +480,18 @@ def distTextOk (desc : Str) (a : DistTrace) : Bool :=
     && args.all (fun kv =>
         kv.2.contains '(' || (Number.parseDecimal '.' 'e' kv.2).isSome)
 
-def distVerdict (impl : Option (List String)) : String :=
+/-- which option of the original distribution the description language is known not to carry
+(known findings): a fixed offset of a Gamma (`Gf`), the discretisation scheme of a Beta (`Bi`,
+`Bp`), class values that are medians (`Md`) -/
+def lostOption (op : List String) : Option String :=
+  if op.contains "Gf" then some "dist_fixed_offset_lost"
+  else if op.contains "Bi" || op.contains "Bp" then some "dist_discretization_lost"
+  else if op.contains "Md" then some "dist_median_lost"
+  else none
+
+def distVerdict (op : List String) (impl : Option (List String)) : String :=
+  -- `dist.rtp`: parameters the text cannot carry (fixed notation, 12 / stream-precision decimals)
+  let stress := op.head? == some "dist.rtp"
   match impl with
   | none => "-"
   | some t =>
@@ -482,19 +500,25 @@ def distVerdict (impl : Option (List String)) : String :=
       match unhex hdesc, parseDistTrace ta with
       | some desc, some a =>
         if !distTextOk desc a then "FAIL:dist_text"
-        else if tb == ["exc:bpp"] then "FAIL:dist_reads_back"
+        else if tb == ["exc:bpp"] then (if stress then "FAIL:dist_precision_lost" else "FAIL:dist_reads_back")
         else match parseDistTrace tb with
           | none => "FAIL:parse"
           | some b =>
-            if a.family != b.family || a.n != b.n then "FAIL:dist_family"
-            else
-              -- the parameters came back bit for bit: the classes agree to 1e-8 (the discretisation
-              -- is not bit-reproducible across construction histories); they were rounded by the
-              -- text (12 decimals, or the precision of the stream): to 1e-5
-              let scale := if sameParams a b then 100000000 else 100000
-              if (a.values.zip b.values).all (fun p => closeHex scale p.1 p.2)
-                 && (a.probs.zip b.probs).all (fun p => closeHex scale p.1 p.2) then "ok"
-              else if sameParams a b then "FAIL:dist_values" else "FAIL:dist_values_rounded"
+            let same := sameParams a b
+            -- the parameters came back bit for bit: the classes agree to 1e-8 relative (the
+            -- discretisation is not bit-reproducible across construction histories); they were
+            -- rounded by the text (12 decimals, or the precision of the stream): to 1e-5
+            let scale := if same then 100000000 else 100000
+            let agree := a.family == b.family && a.n == b.n
+              && (a.values.zip b.values).all (fun p => closeHex scale p.1 p.2)
+              && (a.probs.zip b.probs).all (fun p => closeHex scale p.1 p.2)
+            if agree then "ok"
+            else if stress then "FAIL:dist_precision_lost"
+            else match lostOption op with
+              | some cl => "FAIL:" ++ cl
+              | none =>
+                if a.family != b.family || a.n != b.n then "FAIL:dist_family"
+                else if same then "FAIL:dist_values" else "FAIL:dist_values_rounded"
       | _, _ => "FAIL:parse"
     | [["write:exc:bpp"]] => "FAIL:dist_writes"                    -- the writer raised on a distribution that exists
     | _ => "-"                                                    -- `build:exc:bpp`: the generator asked for a
@@ -524,7 +548,8 @@ def stepRT (s : Unit) (op : List String) (impl : Option (List String)) : Unit ×
           let (out, v) := tblRt sep (al == "1") nCol colNames rows impl
           (s, out, v)
     | _, _, _ => (s, "bad-op", "-")
-  | "dist.rt" :: _ => (s, "?", distVerdict impl)
+  | "dist.rt" :: _ => (s, "?", distVerdict op impl)
+  | "dist.rtp" :: _ => (s, "?", distVerdict op impl)
   | _ => (s, "bad-op", "-")
 
 def step' (s : Unit) (op : List String) (impl : Option (List String)) : Unit × String × String :=
@@ -533,6 +558,7 @@ def step' (s : Unit) (op : List String) (impl : Option (List String)) : Unit × 
   | "nst.rt" :: _ => stepRT s op impl
   | "tbl.rt" :: _ => stepRT s op impl
   | "dist.rt" :: _ => stepRT s op impl
+  | "dist.rtp" :: _ => stepRT s op impl
   | _ => step s op impl
 
 def machine : Machine Unit := { init := fun _ => (), step := step' }
